@@ -243,6 +243,73 @@ fn scenario_y(name: &'static str, n: usize, rounds: usize, menu: Vec<PushAnswer>
     })
 }
 
+/// DeleteSubscription of a push subscription racing with its re-creation under the same name: whatever the outcome,
+/// a subscription that exists afterwards and reports a push endpoint is known to the push loop and gets its messages POSTed.
+fn recreate_race_scenario() -> ScenFn {
+    scen!([] |cx| {
+        cx.set_push_menu(vec![PushAnswer::Status(200)]);
+        let a = cx.api.clone();
+        must!(cx, "setup:create-topic", { let a = a.clone(); async move { a.create_topic(T0).await } });
+        must!(cx, "setup:create-push-sub", { let a = a.clone(); async move { a.create_sub(S0, T0, 10, Some(ENDPOINT)).await } });
+        let creators = 1 + cx.choose("creators", 2);
+        let hd = { let a = a.clone(); cx.spawn("client:00-delete", async move { a.delete_sub(S0).await }) };
+        let n = cx.choose("re-create-after-steps", 16);
+        tryv!(cx.run_steps(n as u32).await);
+        let mut hcs = vec![];
+        for k in 0..creators {
+            let a = a.clone();
+            hcs.push(cx.spawn(&format!("client:{:02}-create", k + 1), async move { a.create_sub(S0, T0, 10, Some(ENDPOINT)).await }));
+        }
+        tryv!(cx.quiesce().await);
+        {
+            let was = cx.freeze(true);
+            let q = cx.advance_ms(1000).await;
+            cx.freeze(was);
+            tryv!(q);
+        }
+        if !hd.is_finished() || hcs.iter().any(|h| !h.is_finished()) {
+            return ScenarioOut::viol("recreate-race/hang", "DeleteSubscription or CreateSubscription has not returned one second after quiescence".to_string());
+        }
+        let d = res(&hd.await.unwrap());
+        let mut cs = vec![];
+        for h in hcs {
+            cs.push(res(&h.await.unwrap().map(|_| ())));
+        }
+        let key = format!("delete:{} create:{:?}", d, cs);
+        let g = { let a = a.clone(); tryv!(cx.settle("probe:get-sub", async move { a.get_sub(S0).await }).await) };
+        let reg: std::collections::BTreeSet<String> = cx.parts.push.entries().into_iter().map(|(n, _)| n.to_string()).collect();
+        let wants = g.as_ref().map(|v| v.push_endpoint.is_some()).unwrap_or(false);
+        if d == "OK" && cs.iter().all(|c| c != "OK") && g.is_ok() {
+            return ScenarioOut::viol("recreate-race/deleted-subscription-exists", format!("{}: the subscription still exists", key));
+        }
+        if cs.iter().any(|c| c == "OK") && d != "OK" && g.is_err() {
+            // (a Delete answered with an error status next to the racing create may or may not have taken effect)
+        }
+        if wants != reg.contains(S0) {
+            return ScenarioOut::viol("recreate-race/push-registration", format!("{}: afterwards GetSubscription {} a push endpoint for {}, but the push registry {} it", key, if wants { "reports" } else { "does not report" }, S0, if reg.contains(S0) { "contains" } else { "does not contain" }));
+        }
+        if wants {
+            // end to end: a message published now is POSTed within the next push rounds
+            let a3 = a.clone();
+            let ids = must!(cx, "client:publish-probe", async move { a3.publish(T0, vec![(b"probe".to_vec(), vec![])]).await });
+            let was = cx.freeze(true);
+            let mut q = Ok(());
+            for _ in 0..250 {
+                if q.is_ok() {
+                    q = cx.advance_ms(10).await;
+                }
+            }
+            cx.freeze(was);
+            tryv!(q);
+            let log = cx.push_log();
+            if !log.iter().any(|att| String::from_utf8_lossy(&att.body).contains(&ids[0])) {
+                return ScenarioOut::viol("recreate-race/not-pushed", format!("{}: the re-created push subscription exists, but a message published to its topic was not POSTed within 2.5 s ({} POSTs seen)", key, log.len()));
+            }
+        }
+        ScenarioOut::ok(format!("{} exists={} registered={}", key, g.is_ok(), reg.contains(S0)))
+    })
+}
+
 fn status_sweep() -> Unit {
     let f: ScenFn = scen!(|cx| {
         let status = 100 + cx.choose("status", 500) as u16;
@@ -296,6 +363,7 @@ pub fn units(thorough: bool) -> Vec<Unit> {
         explore_unit("fault/long-deadline", "1 message on a push subscription with a 60 s ack deadline; the endpoint answers after 5 / 20 / 40 / 55 s (200 or 500) or at once; 130 rounds: an answer inside the 60 s deadline counts, whatever its delay", Bounds::new(0), cfg.clone(), scenario_y("long-deadline", 1, 130, vec![Delay(40_000, 200), Delay(55_000, 200), Delay(20_000, 500), Delay(5_000, 200), Status(200)], None, true, false, 60)),
         explore_unit("fault/interference", "2 messages failing in the first round; between the rounds a rejected duplicate CreateSubscription of the push subscription (with / without endpoint), an unrelated create, a get: the retries go on regardless", Bounds::new(0), cfg.clone(), scenario_x("interference", 2, 3, vec![Status(500), Status(200)], None, true, true)),
         status_sweep(),
+        explore_unit("sched/delete‖recreate-push", "DeleteSubscription of a push subscription racing with 1-2 CreateSubscription of the same name (started after 0-15 scheduler steps), task orders / select indices / preemption points explored: afterwards a subscription that exists and reports a push endpoint is in the push registry and a new message is POSTed within 2.5 s", Bounds::new(if thorough { 3 } else { 2 }), cfg.clone(), recreate_race_scenario()),
     ];
     if thorough {
         v.push(explore_unit("fault/2msg-slow", "2 messages, slow and failing answers, 13 rounds", Bounds::new(0), cfg.clone(), scenario("2msg-slow", 2, 13, vec![Delay(12_000, 200), Status(200), Status(500)], None, true)));
